@@ -104,11 +104,17 @@ impl ToTokens for Expansion {
                         inc = 0;
                     }
                     let ret = {
-                        let inc = Literal::usize_unsuffixed(inc);
+                        let inc = Literal::usize_suffixed(inc);
                         fields.is_empty().then_some((
                             format_ident!("__DISCRIMINANT_{ident}"),
                             (
-                                quote! { (#last_discriminant) + #inc },
+                                // The discriminant fits into `repr_ty`, but the number of variants
+                                // since the last explicit one need not (`repr(i8)`, `A = -1` and
+                                // 128 more variants), so the addition is done modulo the type.
+                                quote! { {
+                                    const __LAST: #repr_ty = #last_discriminant;
+                                    __LAST.wrapping_add(#inc as #repr_ty)
+                                } },
                                 quote! { #ident #fields },
                             ),
                         ))
